@@ -616,7 +616,7 @@ func (c05) Exec(script interface{}, c *core.Ctx) {
 		for len(pl) > 0 && len(long) < 700 {
 			long = append(long, pl...)
 		}
-		for _, in := range [][]byte{pl, pl[:min(cut, len(pl))], {}, nil, long} {
+		for vi, in := range [][]byte{pl, pl[:min(cut, len(pl))], {}, nil, long} {
 			in := append([]byte(nil), in...)
 			switch s.Msgs[mi].Kind {
 			case "pmt":
@@ -666,6 +666,16 @@ func (c05) Exec(script interface{}, c *core.Ctx) {
 				}
 			}
 			if c.Failed() {
+				return
+			}
+			// descriptors can also be built directly from any byte string
+			if (vi == 1 || vi == 4) && (mi+s.Stamp)%3 == 0 && !d.descriptorStage(in) {
+				return
+			}
+		}
+		if mi == 0 {
+			// bodies longer than a descriptor inside a PMT can be (>= 256 bytes), without 0x01
+			if !d.descriptorStage(bytes.Repeat([]byte{0x80 | byte(s.TruncAt)&0x7e}, 300)) {
 				return
 			}
 		}
@@ -779,6 +789,41 @@ func (d *c05Run) pmtStage(in []byte, pkts []*packet.Packet, s *C05Script) bool {
 				}
 			}
 			_ = out
+		}
+	}
+	return true
+}
+
+// descriptorStage: psi.NewPmtDescriptor on an arbitrary body, for every tag a decoder
+// looks at, then every getter.
+func (d *c05Run) descriptorStage(body []byte) bool {
+	for _, tag := range []uint8{5, 10, 14, 82, 0x7F, 0xB0, 0xCC, 0xE9, 0x97, 0} {
+		tag := tag
+		ok := d.ro("psi.NewPmtDescriptor+getters", body, func() {
+			ds := psi.NewPmtDescriptor(tag, body)
+			ds.Tag()
+			_ = ds.Format()
+			ds.IsIso639LanguageDescriptor()
+			ds.IsMaximumBitrateDescriptor()
+			ds.IsIFrameProfile()
+			ds.IsEBPDescriptor()
+			ds.DecodeMaximumBitRate()
+			ds.DecodeIso639LanguageCode()
+			ds.DecodeIso639AudioType()
+			ds.IsDolbyATMOS()
+			ds.IsDolbyVision()
+			ds.DecodeDolbyVisionCodec("hev1")
+			ds.IsTTMLSubtitlingDescriptor()
+			ds.DecodeTTMLIso639LanguageCode()
+			ds.DecodeTTMLSubtitlePurpose()
+			ds.IsTTMLDescTagExtension()
+			es := psi.NewPmtElementaryStream(0x87, 0x101, []psi.PmtDescriptor{ds})
+			es.MaxBitRate()
+			es.IsTTMLSubtitling()
+			_ = fmt.Sprintf("%v", es)
+		})
+		if !ok {
+			return false
 		}
 	}
 	return true
